@@ -345,7 +345,7 @@ func c17Sequence(c *Ctx, r *rng.R, nops, nkeys, nns, capacity int, big bool, kma
 }
 
 func runC17(c *Ctx) {
-	c.Res.Rule = "(a) random op sequences on cache.NewCache(cache.NewLRU(cap)) — Get with/without setFunc (nil-value setFuncs, charges 0/1..3/cap/cap+1), Handle.Release (also repeated), Handle.Value, Delete with/without delFunc, Evict, EvictNS, EvictAll, SetCapacity, Close(force)/Close(weak) — every call's observable outcome (handle/value identity, setFunc ran, finalisers run, delFuncs run, Nodes(), Size()) compared line by line with Model/Cache.lean; small dense key spaces plus sequences over hundreds of keys that grow and shrink the hash table, and skewed key sets (all keys in one bucket) that grow it through the overflow counter; every line is also answered by the hash-table model Model/CacheTable.lean (Nodes, bucket count, grow and shrink counts); non-trivial = a Get evicted and finalised another value and some Get was a hit; (b) concurrent stress, see c17conc.go; (c) targeted stress of Handle.Release racing with Get;Release;Close(false) — the interleaving of Lean theorem close_race_delfunc_twice: no delFunc may run twice (regression detector for D30) — and racing with Get;Close(false) while the new handle is kept — the interleaving of close_race_finalises_under_handle: the value must not be released under the outstanding handle (regression detector for D32); 3 s each in quick, 60 s each in thorough; and rounds of Get/Release workers on a cache of capacity 1 with a Close after 1-5 ms and a 10 s watchdog (regression detector for D36, the recursive read lock of unRefExternal; 2 s quick, 20 s thorough)"
+	c.Res.Rule = "(a) random op sequences on cache.NewCache(cache.NewLRU(cap)) — Get with/without setFunc (nil-value setFuncs, charges 0/1..3/cap/cap+1), Handle.Release (also repeated), Handle.Value, Delete with/without delFunc, Evict, EvictNS, EvictAll, SetCapacity, Close(force)/Close(weak) — every call's observable outcome (handle/value identity, setFunc ran, finalisers run, delFuncs run, Nodes(), Size()) compared line by line with Model/Cache.lean; small dense key spaces plus sequences over hundreds of keys that grow and shrink the hash table, and skewed key sets (all keys in one bucket) that grow it through the overflow counter; every line is also answered by the hash-table model Model/CacheTable.lean (Nodes, bucket count, grow and shrink counts); non-trivial = a Get evicted and finalised another value and some Get was a hit; (b) concurrent stress, see c17conc.go; (c) targeted stress of Handle.Release racing with Get;Release;Close(false) — the interleaving of Lean theorem close_race_delfunc_twice: no delFunc may run twice (regression detector for D30) — and racing with Get;Close(false) while the new handle is kept — the interleaving of close_race_finalises_under_handle: the value must not be released under the outstanding handle (regression detector for D32); 3 s each in quick, 60 s each in thorough; and rounds of Get/Release workers on a cache of capacity 1 with a Close after 1-5 ms and a 10 s watchdog (regression detector for D36, the recursive read lock of unRefExternal; 2 s quick, 20 s thorough); (d) the block cache under file-number reuse on the real DB: a discarded transaction's table is removed, its number given back and used by the next table (sequentially, and with a compaction allocating inside the removal callback's window held open by a waiting LRU): reads must never be served from the removed table's blocks (D20, D50)"
 	r := c.R
 	nseq := c.Scale(400, 4000)
 	for i := 0; i < nseq && c.TimeLeft(); i++ {
@@ -372,4 +372,19 @@ func runC17(c *Ctx) {
 		c17Sequence(c, rr, 150, nkeys, 1, nkeys+rr.Intn(50), true, ks)
 	}
 	c17Concurrent(c)
+	if len(c.Res.Violations) > 0 {
+		return
+	}
+	// (d) the block cache as the DB uses it: namespaces are file numbers, and a number given back by a removed table
+	// (Transaction.Discard) names another table later — its cached blocks must be gone by then, also when a compaction
+	// allocates concurrently (the scenarios of C11: c11StaleCache, sequential; c11StaleCacheRace, the held window)
+	once := &crSigOnce{}
+	nd := c.Scale(12, 120)
+	for i := 0; i < nd && c.TimeLeft() && len(c.Res.Violations) == 0; i++ {
+		rr := r.Fork()
+		c.Guard("block-cache-namespace:harness", i, func() { c11StaleCache(c, once, rr, i) })
+	}
+	if len(c.Res.Violations) == 0 {
+		c11StaleCacheRace(c)
+	}
 }
